@@ -149,6 +149,34 @@ def units(world):
         tag = "None-element" if none_elem else "n=%d%s" % (n, ",debug" if debug else "")
         return FuncUnit("ctparse.ctparse[%s]" % tag, ["ctparse.ctparse"], ["C01", "C03", "C10", "C13", "C14", "C12"],
                         setup, call, ens, prop_map={"safety": ["C01"], "frame": ["C12"]})
+    def mk_ctparse_defaults():
+        """ctparse(txt) with every option omitted: what reaches the stream are the documented
+        defaults, and the reference time is still undetermined (None -> read at call time)"""
+        def setup(it, w):
+            return [{"txt": UTerm("input", ["txt"], "str")}, [], {}]
+
+        def call(it, w, a):
+            P, stream, seen = a
+            it.contracts = dict(it.contracts)
+
+            def gen_contract(it2, f2, args, kwargs):
+                seen["bound"] = it2.bind_args(f2, args, kwargs)
+                return []
+            it.contracts["ctparse.ctparse_gen"] = gen_contract
+            it.contracts["ctparse._preprocess_string"] = lambda it2, f2, args, k: UTerm("preprocess", [args[0]], "str")
+            it.contracts["ctparse._get_labels"] = lambda it2, f2, args, k: UTerm("labels", [args[0]], "list")
+            return it.call(w.func("ctparse.ctparse"), [P["txt"]], {})
+
+        def ens(it, w, a, r):
+            b = a[2].get("bound") or {}
+            reads = it.ghost.get("clock_reads", [])
+            ts_ok = b.get("ts", 0) is None and not reads
+            doc = {"timeout": 1.0, "relative_match_len": 1.0, "max_stack_depth": 10, "scorer": None, "latent_time": True}
+            return [("omitted-reference-time-is-read-at-call-time", ["C03"], ts_ok),
+                    ("documented-defaults", ["C14", "C13"], all(type(b.get(k)) == type(v) and b.get(k) == v for k, v in doc.items()))]
+        return FuncUnit("ctparse.ctparse[defaults]", ["ctparse.ctparse"], ["C03", "C13", "C14"], setup, call, ens,
+                        prop_map={"safety": ["C01"], "frame": ["C12"]})
+    out.append(mk_ctparse_defaults())
     for n in (0, 1, 2, 3):
         out.append(mk_ctparse(n, False))
     out.append(mk_ctparse(2, True))
@@ -177,3 +205,196 @@ def units(world):
         for meth in ("__str__", "__repr__"):
             out.append(mk_render(shape, meth))
     return out
+
+
+# ---------------------------------------------------------------------------------------------
+# labels: _get_labels and the hashtag lemmas (C10)
+VALID_TAG = r"[A-Za-z_][A-Za-z0-9_-]*"       # from the property's quantifier text
+
+
+def _str_consts_in(node, fname):
+    """string literal arguments of calls to re.<fname> inside a function node"""
+    out = []
+    for n in ast.walk(node):
+        if (isinstance(n, ast.Call) and isinstance(n.func, ast.Attribute) and n.func.attr == fname
+                and n.args and isinstance(n.args[0], ast.Constant) and isinstance(n.args[0].value, str)):
+            out.append(n.args[0].value)
+    return out
+
+
+class LabelUnit:
+    kind = "labels"
+    name = "ctparse._get_labels"
+    props = {"C10", "C12", "C01"}
+    cost = 1
+
+    def sha(self, world):
+        return world.sha(world.func("ctparse._get_labels"))
+
+    def run(self, world, prop, tier):
+        from pyvc.vcgen import Obligation, explore
+        from pyvc.regexmodel import PatternModel, WS_CHARS
+        import time
+        obs = []
+
+        def ob(clause, props, ok, detail="", cex=None):
+            o = Obligation(self.name, clause, props)
+            o.kind = "labels"
+            o.paths = o.queries = 1
+            o.backend["z3"] += 1
+            if not ok:
+                o.status, o.detail, o.cex = "failed", detail, cex
+                o.no_input_expected = cex is None
+            obs.append(o)
+            return o
+        f = world.func("ctparse._get_labels")
+        txt = UTerm("input", ["txt"], "str")
+        res, stats = explore(world, lambda it: [txt], lambda it, a: it.call(f, a, {}))
+        r = res[0]
+        ok = len(res) == 1 and r.kind == "return"
+        val = r.value if ok else None
+        shape = (isinstance(val, UTerm) and val.fn == "comp" and isinstance(val.args[0], UTerm)
+                 and val.args[0].fn == "re.findall" and isinstance(val.args[0].args[0], str)
+                 and isinstance(val.args[0].args[1], UTerm) and val.args[0].args[1].same(txt) and val.args[2] == ()
+                 and isinstance(val.args[1], UTerm) and val.args[1].fn == "str.replace"
+                 and isinstance(val.args[1].args[0], UTerm) and val.args[1].args[0].fn == "elem"
+                 and tuple(val.args[1].args[1:]) == ("#", ""))
+        ob("labels-are-the-matches-in-text-order-without-hash", ["C10", "C12", "C01"], bool(ok and shape),
+           "the result is not [m.replace('#','') for m in re.findall(P, txt)] (an order-preserving map over the matches): %r" % (
+               val if ok else r.value,), cex={"args": {"kind": "label-order"}})
+        find = val.args[0].args[0] if ok and shape else None
+        # the stripping regex at its two call sites
+        strips = _str_consts_in(world.func("ctparse._ctparse").node, "sub") + _str_consts_in(world.func("ctparse.ctparse").node, "sub")
+        ob("same-strip-pattern-on-both-paths", ["C10"], len(strips) == 2 and strips[0] == strips[1],
+           "label stripping patterns differ between match and no-match path: %r" % (strips,))
+        S = z3.StringSort()
+        w = z3.String("w")
+        valid = PatternModel(0, "#" + VALID_TAG, {}, ignorecase=False).reglan()
+        full = z3.Full(z3.ReSort(S))
+        seps = z3.Union(*[z3.Re(z3.StringVal(c)) for c in WS_CHARS + ",;()[]{}"])
+
+        def lemma(clause, pattern, mk, detail):
+            if pattern is None:
+                ob(clause, ["C10"], False, "pattern constant not found")
+                return
+            try:
+                L = PatternModel(0, pattern, {}, ignorecase=False).reglan()
+            except Exception as e:
+                ob(clause, ["C10"], False, "cannot parse %r: %s" % (pattern, e))
+                return
+            s = z3.Solver()
+            s.set("timeout", 20000)
+            s.add(mk(L))
+            rr = s.check()
+            if rr == z3.unsat:
+                ob(clause, ["C10"], True)
+            elif rr == z3.sat:
+                wit = s.model().eval(w, model_completion=True).as_string()
+                ob(clause, ["C10"], False, detail % wit, cex={"args": {"kind": "hashtag", "word": wit, "pattern": pattern}})
+            else:
+                o = ob(clause, ["C10"], True)
+                o.status, o.detail = "undecided", "solver unknown"
+        lemma("every-valid-hashtag-is-found-whole", find,
+              lambda L: z3.And(z3.InRe(w, valid), z3.Not(z3.InRe(w, L))), "valid hashtag %r is not (entirely) matched by the finding pattern")
+        strip = strips[0] if strips else None
+        lemma("every-valid-hashtag-is-stripped-whole", strip,
+              lambda L: z3.And(z3.InRe(w, valid), z3.Not(z3.InRe(w, L))), "valid hashtag %r is not (entirely) removed by the stripping pattern")
+        lemma("stripping-touches-only-hashtags", strip,
+              lambda L: z3.And(z3.InRe(w, L), z3.Or(z3.Not(z3.PrefixOf(z3.StringVal("#"), w)), z3.InRe(w, z3.Concat(full, seps, full)))),
+              "the stripping pattern matches %r: not a single '#'-word")
+        return obs, {"paths": stats["paths"], "assumptions": [
+            "re.findall returns the non-overlapping matches in text order (A-regex); hashtag lemmas are about valid hashtags [A-Za-z_][A-Za-z0-9_-]* delimited by separators"]}
+
+
+_units_base = units
+
+
+def units(world):  # noqa: F811
+    return _units_base(world) + [LabelUnit()]
+
+
+# ---------------------------------------------------------------------------------------------
+# ctparse_gen: reference-time defaulting, forwarding to _ctparse, latent-time branch
+def gen_units(world):
+    out = []
+    CT_PARAMS = ["txt", "ts", "timeout", "relative_match_len", "max_stack_depth", "scorer"]
+
+    def mk_gen(n, ts_given, scorer_given):
+        def setup(it, w):
+            P = mk_params(it)
+            P["ts"] = Tok("ts") if ts_given else None
+            P["scorer"] = Tok("scorer") if scorer_given else None
+            stream = []
+            for i in range(n):
+                o = mk_ctparse_obj(it, w, "p%d" % i)
+                o.fresh = True          # allocated by _ctparse during this call
+                stream.append(o)
+            return [P, stream, {"post": []}]
+
+        def call(it, w, a):
+            P, stream, seen = a
+            it.contracts = dict(it.contracts)
+
+            def c_ctparse(it2, f2, args, kwargs):
+                seen["bound"] = it2.bind_args(f2, args, kwargs)
+                return list(stream)
+
+            def c_post(it2, f2, args, kwargs):
+                seen["post"].append(tuple(args))
+                return Tok("post(%s)" % getattr(args[1], "name", "?"))
+            it.contracts["ctparse._ctparse"] = c_ctparse
+            it.contracts["postprocess_latent.apply_postprocessing_rules"] = c_post
+            it.contracts["ctparse._preprocess_string"] = lambda it2, f2, args, k: UTerm("preprocess", [args[0]], "str")
+            seen["res0"] = [o.attrs["resolution"] for o in stream]
+            f = w.func("ctparse.ctparse_gen")
+            return it.call(f, [P["txt"], P["ts"]], {"timeout": P["timeout"], "relative_match_len": P["relative_match_len"],
+                                                     "max_stack_depth": P["max_stack_depth"], "scorer": P["scorer"],
+                                                     "latent_time": P["latent_time"]})
+
+        def ens(it, w, a, r):
+            P, stream, seen = a
+            b = seen.get("bound") or {}
+            reads = it.ghost.get("clock_reads", [])
+            out2 = []
+            ts_in = b.get("ts")
+            if ts_given:
+                ts_ok = ts_in is P["ts"] and not reads
+            else:
+                ts_ok = (isinstance(ts_in, DT) and getattr(ts_in, "is_now", False) and ts_in.phase == "call"
+                         and len(reads) == 1 and reads[0] is ts_in)
+            out2.append(("reference-time-given-or-read-at-call-time", ["C03"], ts_ok))
+            fw = (isinstance(b.get("txt"), UTerm) and b["txt"].same(UTerm("preprocess", [P["txt"]], "str"))
+                  and all(same_value(it, P[k], b.get(k)) is True or is_z3(same_value(it, P[k], b.get(k))) for k in ("timeout", "relative_match_len", "max_stack_depth")))
+            fwz = And(*[same_value(it, P[k], b.get(k)) for k in ("timeout", "relative_match_len", "max_stack_depth")]) if b else False
+            sc = b.get("scorer")
+            sc_ok = (sc is P["scorer"]) if scorer_given else (isinstance(sc, Tok) and sc.name.endswith("_DEFAULT_SCORER"))
+            out2.append(("options-forwarded-to-the-search", ["C14", "C13", "C01"], And(bool(fw), fwz, sc_ok)))
+            same_stream = isinstance(r, list) and len(r) == len(stream) and all(x is y for x, y in zip(r, stream))
+            out2.append(("yields-every-candidate-in-order", ["C14", "C13", "C15"], same_stream))
+            lt = P["latent_time"]
+            if same_stream:
+                posted = seen["post"]
+                path_latent = len(posted) == len(stream) and len(stream) > 0
+                ok_on = all(pa[0] is ts_in and pa[1] is r0 for pa, r0 in zip(posted, seen["res0"])) and \
+                    all(isinstance(o.attrs["resolution"], Tok) and o.attrs["resolution"].name.startswith("post(") for o in stream)
+                ok_off = all(o.attrs["resolution"] is r0 for o, r0 in zip(stream, seen["res0"])) and not posted
+                if n == 0:
+                    out2.append(("latent-anchoring-iff-requested", ["C06", "C09"], not posted))
+                else:
+                    out2.append(("latent-anchoring-iff-requested", ["C06", "C09"],
+                                 And(Implies(lt, path_latent and ok_on), Implies(Not(lt), (not path_latent) and ok_off))))
+            return out2
+        return FuncUnit("ctparse.ctparse_gen[n=%d,%s,%s]" % (n, "ts" if ts_given else "ts omitted", "scorer" if scorer_given else "default scorer"),
+                        ["ctparse.ctparse_gen"], ["C01", "C03", "C06", "C09", "C13", "C14", "C15", "C12"], setup, call, ens,
+                        prop_map={"safety": ["C01"], "frame": ["C12"]})
+    for n in (0, 2):
+        for tg in (True, False):
+            out.append(mk_gen(n, tg, tg))
+    return out
+
+
+_units_base2 = units
+
+
+def units(world):  # noqa: F811
+    return _units_base2(world) + gen_units(world)
